@@ -662,6 +662,13 @@ def rule_end_test(ctx):
         else:
             ctx.ok("SEC.END-TEST", site, fi, loop, "%s loop iterates the file itself, advances its counter once per line, "
                    "and evaluates `counter == last` on every iteration after processing the line" % role)
+    if not any(role == "other" for (_fi, _lp, role, *_rest) in _consumer_loops(p)):
+        # the ~Other loop is not a `for line in file_obj:` with a counter in LASFile.read / a las helper any more (islice, a
+        # generator expression ...): its end test is not decided in that form
+        ctx.undecided("SEC.END-TEST", READ + "#other-loop", None, 0, "the free-text (~Other) loop is not a counted loop over the file object: "
+                      "where it stops is not decided in this form")
+        ctx.floor("SEC.END-TEST", 3)
+        return
     ctx.floor("SEC.END-TEST", 4)
 
 
@@ -680,7 +687,8 @@ def _is_title_test(node, linevar):
     constant means "white space, then ~" is SEC.TITLE-PRED's business)"""
     return any(isinstance(c, ast.Call) and isinstance(c.func, ast.Attribute) and ((c.func.attr == "startswith"
                and c.args and isinstance(c.args[0], ast.Constant) and c.args[0].value == "~") or (
-               c.func.attr == "match" and c.args and "TITLE" in ast.unparse(c.func.value).upper())) for c in ast.walk(node))
+               c.func.attr == "match" and c.args and ("TITLE" in ast.unparse(c.func.value).upper() or (
+                   "re.compile(" in ast.unparse(c.func.value) and "~" in ast.unparse(c.func.value))))) for c in ast.walk(node))
 
 
 def _title_guard_nodes(cfg, loop, linevar):
@@ -913,6 +921,8 @@ def _steer_stores(fr):
     for sub in walk_shallow(fr.node):
         if isinstance(sub, ast.Assign) and len(sub.targets) == 1 and isinstance(sub.targets[0], ast.Name):
             v = sub.value
+            if isinstance(v, ast.Compare) and len(v.ops) == 1 and isinstance(v.comparators[0], ast.Constant):
+                v = v.left        # a steering value kept as a boolean: `wrapped = <items>.WRAP.value == "YES"`
             if isinstance(v, ast.Attribute) and v.attr == "value":
                 b = v.value
                 mn = None
